@@ -437,3 +437,12 @@ def loose_test(rng, names, reg, depth):
 def loose_negatable(rng, names, reg, depth):
     # '!' may precede a query, a function call or a parenthesized logical expression
     return loose_test(rng, names, reg, depth)
+
+
+def norm_slices(x):
+    """an omitted slice step is the step 1 (RFC 9535 2.3.4.2.1 default)"""
+    if isinstance(x, list): return [norm_slices(y) for y in x]
+    if isinstance(x, tuple):
+        if x and x[0] == "slice": return ("slice", x[1], x[2], 1 if x[3] is None else x[3])
+        return tuple(norm_slices(y) for y in x)
+    return x
